@@ -40,6 +40,8 @@ type c19Scenario struct {
 	// AppReq (sessions leg): after the negotiation the application itself requests a capability the
 	// server never listed, through Conn.Cap, and the server acknowledges it
 	AppReq bool `json:"app_req,omitempty"`
+	// Relist: after an ACK that switched a capability off, the server lists its capabilities once more
+	Relist bool `json:"relist,omitempty"`
 }
 
 // errC19Abort is how a negotiation script says "the link drops here" (not a violation).
@@ -402,6 +404,32 @@ func runC19Once(sc *c19Scenario, tc *testClient, m *capModel, cycle int) *Violat
 			if v := ack("after a later ACK disabling a capability", []string{"-" + req[0]}); v != nil {
 				return v
 			}
+			if sc.Relist {
+				// the same list again: what is wanted and advertised is asked for again, the capability
+				// that was switched off included
+				req2, _ := m.onLS(sc.Advertised)
+				got, v := step(":irc.server CAP * LS :" + strings.Join(sc.Advertised, " "))
+				if v != nil {
+					return v
+				}
+				var asked []string
+				for _, l := range got {
+					if !strings.HasPrefix(l, "CAP REQ :") {
+						return violationf("C19", "after a second LS: client sent %q, want only CAP REQ lines asking for %v", got, req2)
+					}
+					asked = append(asked, strings.Fields(l[len("CAP REQ :"):])...)
+				}
+				sort.Strings(asked)
+				if strings.Join(asked, " ") != strings.Join(req2, " ") {
+					return violationf("C19", "after a capability was switched off and the server listed its capabilities again: client requested %v, want exactly wanted∩advertised = %v", asked, req2)
+				}
+				if v := ack("after the ACK of the repeated request", req2); v != nil {
+					return v
+				}
+				if v := saslFlow(); v != nil {
+					return v
+				}
+			}
 		}
 	}
 	if sc.ReAck && sc.Reply != "nak" {
@@ -459,9 +487,12 @@ type c19Session struct {
 	Drops  []string      `json:"drops"` // how the link of round k ends: close, eof
 }
 
-func c19Configure(cfg *client.Config, sc *c19Scenario) {
+// c19Configure installs the round's settings. The capability list is handed over as a slice with spare
+// capacity (the application keeps the longer list it was cut from); that list is returned.
+func c19Configure(cfg *client.Config, sc *c19Scenario) []string {
 	cfg.EnableCapabilityNegotiation = true
-	cfg.Capabilites = append([]string{}, sc.Wanted...)
+	full := append(append([]string{}, sc.Wanted...), "spare-one", "spare-two")
+	cfg.Capabilites = full[:len(sc.Wanted)]
 	switch sc.Sasl {
 	case "PLAIN":
 		cfg.Sasl = sasl.NewPlainClient(string(sc.Authzid), string(sc.User), string(sc.Pass))
@@ -470,10 +501,16 @@ func c19Configure(cfg *client.Config, sc *c19Scenario) {
 	default:
 		cfg.Sasl = nil
 	}
+	return full
+}
+
+func c19SpareIntact(full []string, wanted int) bool {
+	return len(full) == wanted+2 && full[wanted] == "spare-one" && full[wanted+1] == "spare-two"
 }
 
 func runC19Session(ss *c19Session) *Violation {
-	tc := newTestClient(cliOpts{Flood: true, Configure: func(cfg *client.Config) { c19Configure(cfg, &ss.Rounds[0]) }})
+	var full []string
+	tc := newTestClient(cliOpts{Flood: true, Configure: func(cfg *client.Config) { full = c19Configure(cfg, &ss.Rounds[0]) }})
 	defer tc.shutdown()
 	disc := make(chan struct{}, 8)
 	tc.C.HandleFunc(client.DISCONNECTED, func(*client.Conn, *client.Line) { disc <- struct{}{} })
@@ -482,7 +519,7 @@ func runC19Session(ss *c19Session) *Violation {
 		sc := &ss.Rounds[k]
 		if k > 0 {
 			// the application reconfigures the existing client before it connects again
-			c19Configure(tc.C.Config(), sc)
+			full = c19Configure(tc.C.Config(), sc)
 		}
 		m := newCapModel(sc)
 		_ = prev // capabilities are a property of one connection: nothing is carried over
@@ -492,6 +529,9 @@ func runC19Session(ss *c19Session) *Violation {
 			return v
 		}
 		prev = m
+		if !c19SpareIntact(full, len(sc.Wanted)) {
+			return violationf("C19", "negotiation %d: the application's own capability list was written to beyond the part handed to the client: %q", k+1, full)
+		}
 		// the link ends
 		if ss.Drops[k] == "eof" {
 			tc.conn().EOFNow()
@@ -517,7 +557,7 @@ func genC19Session(t *rapid.T) *c19Session {
 			Outcome: rapid.SampledFrom([]string{"903", "904", "908"}).Draw(t, "outcome"),
 			Stray:   rapid.IntRange(0, 3).Draw(t, "stray") == 0, EarlyEnd: rapid.IntRange(0, 3).Draw(t, "early_end") == 0,
 			LateNak: rapid.IntRange(0, 4).Draw(t, "late_nak") == 0, ReAck: rapid.IntRange(0, 4).Draw(t, "re_ack") == 0,
-			AppReq: rapid.IntRange(0, 3).Draw(t, "app_req") == 0}
+			AppReq: rapid.IntRange(0, 3).Draw(t, "app_req") == 0, Relist: rapid.Bool().Draw(t, "relist")}
 		for _, c := range []string{"a", "b", "z"} {
 			if rapid.Bool().Draw(t, "wanted_"+c) {
 				sc.Wanted = append(sc.Wanted, c)
@@ -635,6 +675,7 @@ func TestC19_Enum(t *testing.T) {
 							sc := &c19Scenario{Wanted: wanted, Sasl: sm, Authzid: "", User: "user", Pass: "p w", Advertised: adv, Reply: reply, Outcome: outcome, Stray: stray}
 							// three more binary dimensions, spread over the enumeration rather than multiplied into it
 							sc.EarlyEnd, sc.LateNak, sc.ReAck = i%3 == 0, i%5 == 0, i%7 == 0 || i%9 == 0
+							sc.Relist = i%4 == 1
 							if i%2 == 0 {
 								sc.Cycles = 2
 							}
@@ -696,6 +737,15 @@ func genC19(t *rapid.T) *c19Scenario {
 		return Q(string(b))
 	}
 	sc.Authzid, sc.User, sc.Pass = cred("authzid"), cred("user"), cred("pass")
+	if rapid.IntRange(0, 3).Draw(t, "sized_response") == 0 {
+		// initial responses whose base64 form is just below, at and above 400 and 800 bytes
+		raw := rapid.SampledFrom([]int{297, 298, 299, 300, 301, 597, 598, 600, 601}).Draw(t, "response_len")
+		sc.Authzid, sc.User = "", "u"
+		sc.Pass = Q(strings.Repeat("p", raw-3))
+		if sc.Sasl == "EXTERNAL" {
+			sc.Authzid = Q(strings.Repeat("z", raw))
+		}
+	}
 	if sc.Reply == "ack" || sc.Reply == "ack_reversed" {
 		// a single ACK line would exceed the line length for large sets; keep the set small
 		if len(sc.Advertised) > 12 {
